@@ -15,6 +15,8 @@ REAL = "real code from the /repo working tree"
 PROPERTIES = {}
 NOT_APPLICABLE = {}
 ENGINE_KINDS = {
+    "mc": "Alignment.align_molecules -> minimize_molecules -> python Monte-Carlo loop under the random seam (seeded stream + override script); call-through monitors on Chi2Calculator / accept_metropolis / move_mol_atom / find_atom_random_displ / rotation_matrix; reference model of the loop bookkeeping",
+    "xmap": "one ExchangeMap under a generated call / rejection / mutation history; reference model of the map; fresh-map differential; in-situ monitor on every frame; random seam for the frame completion of 1-/2-atom references",
     "topo": "generated and shipped .itp files on the simulated disk: read_topology / MoleculeTop / are_connected against the generator's ground truth (stack budget as resource knob); read-write-read-write-read histories compared by an independent line classifier",
     "grofile": "GroFile writer sessions on a simulated disk (file seam: operation log, crash images, torn writes, byte truncation) read back by the real reader and an independent parser",
     "pbc": "seeded trajectories of two residues under a box; closed-form oracle (degenerate simulation: no schedule, no fault)",
@@ -116,3 +118,176 @@ _reg("C16", engine="topo", level="exploration",
                  "disk": "tmpfs files behind the file seam (written content taken from the seam's operation log)"},
      schedule_dimension="file history read/write/read/write/read",
      probes=["repeated_section_name", "empty_trailing_comment", "commented_preprocessor", "multiple_trailing_comments", "shipped_file"])
+
+
+_XMAP_NOTE = ("Trusted: the 40-line frame model (sim/models.py) and numpy.  Generic anchors make an angle >= 2e-3 rad with their frame "
+              "neighbours, collinear ones are exactly or numerically (after a float rigid motion) collinear; angles in between are "
+              "not generated (ill-conditioned, no implementation can meet 1e-8 there).  Nearest-anchor ties within 1e-12 nm are "
+              "accepted either way.  Reference and target have the same number of residues.")
+
+_reg("C01", engine="xmap", level="exploration",
+     runs={"quick": 1200, "thorough": 60000}, block=8,
+     technique="seeded call histories on one stateful ExchangeMap; anchor-and-scale law checked whenever the history maps the construction configuration (not only first)",
+     level_text=("Sampled reference/target pairs (3..40 reference atoms; trees, forests, cyclic graphs; generic, exactly collinear "
+                 "along axes / diagonals / integer directions, and mixed geometries; scale in (0, 2]) and sampled histories.  "
+                 "Every call on the construction configuration, at any point of the history, is compared with a + s (p - a) "
+                 "using an independent nearest-anchor computation."),
+     level_note="The law itself is a pure function of the input; it rides on the C04 histories because the map is stateful. " + _XMAP_NOTE,
+     rule=("one run = one map + one history; non-trivial = at least one call returned; distinct = distinct sequences of "
+           "(operation kind, outcome) incl. the reference geometry class"),
+     components={"ExchangeMap": REAL, "calcule_base": REAL + " (wrapped by a call-through monitor)", "Molecule/Residue/AtomGro/AtomTop": REAL,
+                 "MoleculeTop": REAL + " (built without a file, the way MoleculeTop.copy does)",
+                 "numpy.random.rand": "random seam (seeded stream + override script) for 1-/2-atom references"},
+     schedule_dimension="order of calls / rejections / mutations on one map",
+     probes=["collinear_reference", "collinear_frame", "anchor_tie"])
+
+_reg("C02", engine="xmap", level="exploration",
+     runs={"quick": 1200, "thorough": 60000}, block=8,
+     technique="seeded call histories with rigidly moved copies; random seam (seeded stream + corner/face override script) behind the frame completion of 1-/2-atom references; axis invariants across repeated calls",
+     level_text=("Sampled pairs and histories dominated by calls on R ref + t (R uniform on SO(3) plus identity / pi / tiny / quarter "
+                 "turns, |t| up to 30 nm).  Generic anchors: equality with R map(ref) + t to 1e-8; collinear anchors and 2-atom "
+                 "references: distance to anchor, axial coordinate and distance from the axis; 1-atom references: distance.  "
+                 "For 1-/2-atom references every call draws a new completion from the random seam, so the invariants are "
+                 "checked across different random streams and under injected extreme draws."),
+     level_note=_XMAP_NOTE,
+     rule=("one run = one map + one history; non-trivial = at least one call returned; distinct = distinct sequences of "
+           "(operation kind, outcome) incl. the reference geometry class"),
+     components={"ExchangeMap": REAL, "calcule_base": REAL + " (wrapped by a call-through monitor)", "Molecule/Residue/AtomGro/AtomTop": REAL,
+                 "MoleculeTop": REAL + " (built without a file, the way MoleculeTop.copy does)",
+                 "numpy.random.rand": "random seam (seeded stream + override script) for 1-/2-atom references"},
+     schedule_dimension="order of calls on one map; random completion stream",
+     probes=["collinear_reference", "collinear_frame", "coincident_middle_point"])
+
+_reg("C03", engine="xmap", level="exploration",
+     runs={"quick": 1200, "thorough": 60000}, block=8,
+     technique="seeded call histories with deformed conformations and single-atom displacement probes against a locality oracle",
+     level_text=("Sampled pairs and histories dominated by calls on deformed conformations (independent displacement of every "
+                 "atom up to 0.3 nm) and on conformations that differ from an earlier one by a single displaced atom.  Checked: "
+                 "distance to the new anchor position = s x construction distance (1e-9), intra-anchor distances x s (1e-9), and "
+                 "mapped atoms whose anchor and frame neighbours were not displaced are unchanged (1e-12)."),
+     level_note="Nothing is asserted for atoms whose anchor or frame neighbours moved. " + _XMAP_NOTE,
+     rule=("one run = one map + one history; non-trivial = at least one call returned; distinct = distinct sequences of "
+           "(operation kind, outcome) incl. the reference geometry class"),
+     components={"ExchangeMap": REAL, "calcule_base": REAL + " (wrapped by a call-through monitor)", "Molecule/Residue/AtomGro/AtomTop": REAL,
+                 "MoleculeTop": REAL + " (built without a file, the way MoleculeTop.copy does)",
+                 "numpy.random.rand": "random seam (seeded stream + override script) for 1-/2-atom references"},
+     schedule_dimension="order of calls on one map",
+     probes=["locality_checked", "collinear_reference"])
+
+_reg("C04", engine="xmap", level="exploration",
+     runs={"quick": 1200, "thorough": 60000}, block=8,
+     technique="seeded operation histories (calls, repeats, rejected arguments, mutation of construction molecules / results / arguments) on one map, checked after every operation against a freshly built map, a reference model and bitwise snapshots",
+     level_text=("Sampled histories of 10..32 operations on one map: calls on construction / rigid / deformed copies and on "
+                 "separately built instances of the species, repeats of earlier calls, rejected arguments (other name, other "
+                 "atom name, extra atom, None, Residue, array, str, MoleculeTop) and fault-like mutations of the construction "
+                 "molecules, of returned molecules and of arguments after the call.  After every call: equality with a freshly "
+                 "built map (1e-12), with the model, with earlier results for the same argument; bitwise snapshots of argument, "
+                 "construction molecules and all previously returned molecules; names / residue names / order of the target and "
+                 "residue numbers of the argument; TypeError for rejections and a usable map afterwards."),
+     level_note=("Mutations change coordinates only (names of the construction molecules are not touched). " + _XMAP_NOTE),
+     rule=("one run = one map + one history; non-trivial = at least one call returned; distinct = distinct sequences of "
+           "(operation kind, outcome)"),
+     components={"ExchangeMap": REAL, "calcule_base": REAL + " (wrapped by a call-through monitor)", "Molecule/Residue/AtomGro/AtomTop": REAL,
+                 "MoleculeTop": REAL + " (built without a file, the way MoleculeTop.copy does)",
+                 "numpy.random.rand": "random seam (seeded stream + override script) for 1-/2-atom references"},
+     schedule_dimension="order of calls / repeats / rejections / mutations on one map",
+     probes=["collinear_reference"])
+
+
+_MC_NOTE = ("Trusted: the monitors' re-statement of the definitions (sim/models.py fast_chi2, engines/mc.py), numpy.  The mobile "
+              "molecule is a connected tree, the fixed one has a bond and a non-hydrogen atom, single-atom moves only with >= 2 "
+              "mobile atoms (as the properties state).  Energies are > 0 (no exactly superposed configurations are generated). "
+              "Injected draws are legal values of their distributions; exact zero displacements are never injected.")
+_MC_RULE = ("one run = one alignment (or one direct optimiser call) = one complete Monte-Carlo trajectory under one seeded stream "
+            "and one override script, executed twice; non-trivial = the run completed; distinct = distinct sequences of "
+            "(move type, accepted, new minimum) triples")
+_MC_FAULTS = ["accept_draw_extreme", "move_type_pinned", "atom_index_pinned", "translation_scaled", "rotation_angle_extreme",
+              "rotation_axis_extreme", "atom_displacement_scaled"]
+
+_reg("C06", engine="mc", level="exploration",
+     runs={"quick": 2400, "thorough": 160000}, block=8,
+     technique="deterministic simulation of the Monte-Carlo alignment under a seeded + adversarially overridden random stream; end-state oracles; every run executed twice (bit-identical) and a sample re-executed in a fresh interpreter under another hash seed",
+     level_text=("Sampled molecule pairs (1..40 atoms, either one larger, ties, one-atom molecules), restraint lists, deformation-type "
+                 "subsets, hydrogen settings, knobs (STEPS_FACTOR, SIGMA_SCALE) and random streams, including injected regimes an "
+                 "unseeded run practically never visits (accept-everything bursts, thousand-fold displacements, pi rotations, one "
+                 "hub atom moved repeatedly).  Checked on the end state: the larger molecule only translated (untouched when it is "
+                 "the end molecule), bond lengths of the mobile tree to 1e-9, all pairwise distances when single-atom moves are off, "
+                 "names/order, finiteness, caller's molecules bit-identical, repeatability."),
+     level_note=_MC_NOTE,
+     rule=_MC_RULE,
+     components={"Alignment.align_molecules": REAL, "_backend._minimize_molecules (python engine)": REAL,
+                 "Chi2Calculator / accept_metropolis / move_mol_atom / find_atom_random_displ / rotation_matrix": REAL + " (wrapped by call-through monitors)",
+                 "numpy.random.{choice,normal,uniform,rand,randint}": "random seam: numpy's global RandomState seeded per run + override script",
+                 "cython backend": "not installed; the pure-python engine is what runs",
+                 "Molecule/MoleculeTop": REAL + " (MoleculeTop built without a file)"},
+     schedule_dimension="the random stream (seed + override script) that decides every step of the search; knob values",
+     probes=["accepted_worse_proposal", "rigid_only_run", "new_minimum", "rejected_proposal"] )
+
+_reg("C07", engine="mc", level="exploration",
+     runs={"quick": 2400, "thorough": 160000}, block=8,
+     technique="in-situ monitor on every single-atom move and random displacement the Monte-Carlo loop makes under the random seam",
+     level_text=("Every move_mol_atom / find_atom_random_displ call made by the simulated Monte-Carlo trajectories is checked: input "
+                 "unmodified, output finite, the chosen atom displaced by exactly the drawn vector, every bond of the tree at its "
+                 "tabulated length (1e-9 relative), displacement perpendicular to the bond / neighbour line / neighbour plane."),
+     level_note=_MC_NOTE,
+     rule=_MC_RULE,
+     components={"Alignment.align_molecules": REAL, "_backend._minimize_molecules (python engine)": REAL,
+                 "Chi2Calculator / accept_metropolis / move_mol_atom / find_atom_random_displ / rotation_matrix": REAL + " (wrapped by call-through monitors)",
+                 "numpy.random.{choice,normal,uniform,rand,randint}": "random seam: numpy's global RandomState seeded per run + override script",
+                 "cython backend": "not installed; the pure-python engine is what runs",
+                 "Molecule/MoleculeTop": REAL + " (MoleculeTop built without a file)"},
+     schedule_dimension="the random stream feeding atom choice and displacement",
+     probes=["displacement_three_neighbours"])
+
+_reg("C08", engine="mc", level="exploration",
+     runs={"quick": 2400, "thorough": 160000}, block=8,
+     technique="in-situ monitor comparing every chi2 evaluation made along simulated Monte-Carlo trajectories with a naive re-statement of the definition",
+     level_text=("Every evaluation of the overlap measure made by the loop -- on configurations reached by the search, far from the "
+                 "one the calculator was built with, for empty / partial / duplicated / all-fixed-atoms restraint lists -- is "
+                 "compared (1e-9 relative) with an independent evaluation written from the statement; non-negativity; the "
+                 "argument must not be modified."),
+     level_note=_MC_NOTE + "  Evaluations where two mobile atoms are equidistant (1e-9) from a fixed atom are skipped (penalty exponent undefined).",
+     rule=_MC_RULE,
+     components={"Alignment.align_molecules": REAL, "_backend._minimize_molecules (python engine)": REAL,
+                 "Chi2Calculator / accept_metropolis / move_mol_atom / find_atom_random_displ / rotation_matrix": REAL + " (wrapped by call-through monitors)",
+                 "numpy.random.{choice,normal,uniform,rand,randint}": "random seam: numpy's global RandomState seeded per run + override script",
+                 "cython backend": "not installed; the pure-python engine is what runs",
+                 "Molecule/MoleculeTop": REAL + " (MoleculeTop built without a file)"},
+     schedule_dimension="the random stream that drives the calculator to new configurations",
+     probes=["chi2_off_construction_config", "chi2_penalty_k>0"])
+
+_reg("C09", engine="mc", level="exploration",
+     runs={"quick": 2400, "thorough": 160000}, block=8,
+     technique="deterministic simulation of the Monte-Carlo loop: every draw comes from the random seam, every component call is observed, and a reference model of the loop's bookkeeping is advanced event by event (refinement check per step)",
+     level_text=("Per iteration, through the seams only: the move-type draw, the proposal handed to the measure, its value, the two "
+                 "energies given to the acceptance test, the uniform number it consumed and its answer, the rotation matrix / the "
+                 "single-atom move, the 'Chi2 =' lines.  A 40-line model (held configuration, held energy, lowest energy, counter) "
+                 "is advanced from these events and checks: judged against the held energy (bitwise), Metropolis rule for the "
+                 "recorded u, proposal = translation / centroid rotation / single-atom move of the HELD configuration and of an "
+                 "enabled type, rejection leaves state unchanged, a line printed exactly at each new minimum, the next move is "
+                 "drawn iff the counter is below the budget (an extra draw raises inside the seam), the returned array is the held "
+                 "one bitwise."),
+     level_note=_MC_NOTE + "  If the loop stops using the module-level names the seams watch, the run is counted as unobservable (probe) instead of judged.",
+     rule=_MC_RULE,
+     components={"Alignment.align_molecules": REAL, "_backend._minimize_molecules (python engine)": REAL,
+                 "Chi2Calculator / accept_metropolis / move_mol_atom / find_atom_random_displ / rotation_matrix": REAL + " (wrapped by call-through monitors)",
+                 "numpy.random.{choice,normal,uniform,rand,randint}": "random seam: numpy's global RandomState seeded per run + override script",
+                 "cython backend": "not installed; the pure-python engine is what runs",
+                 "Molecule/MoleculeTop": REAL + " (MoleculeTop built without a file)"},
+     schedule_dimension="the random stream (seed + override script): move types, magnitudes, acceptance draws",
+     probes=["accepted_worse_proposal", "accepted_without_new_minimum", "new_minimum", "rejected_proposal"])
+
+_reg("C17", level="exploration",
+     parts=[{"engine": "xmap", "runs": {"quick": 600, "thorough": 30000}, "block": 8},
+            {"engine": "mc", "runs": {"quick": 300, "thorough": 15000}, "block": 4}],
+     technique="in-situ monitors on every rotation matrix the simulated Monte-Carlo loop uses (axes/angles from the random seam incl. injected extremes) and on every local frame the exchange-map histories build",
+     level_text=("Every matrix rotation_matrix returns during mc runs (orthogonal, det +1, axis fixed, trace 1 + 2cos(theta), to "
+                 "1e-12) and every frame calcule_base returns during xmap runs (right-handed orthonormal to 1e-12, first vector "
+                 "along p2 - p0, third normal to the plane when not collinear, origin p0, inputs unmodified), for generic, exactly "
+                 "collinear (axes, diagonals, integer directions), numerically collinear and coincident-middle-point triples."),
+     level_note=("The closed-form relations (R(-t) = R(t)^T, R(a)R(b) = R(a+b), independence of the axis length) are pure functions "
+                 "and are checked by the directed part.  Triples with an angle in [1e-9, 1e-3) rad are not judged."),
+     rule="runs of the xmap and mc engines; non-trivial = the run completed; distinct = distinct behaviour signatures of those engines",
+     components={"rotation_matrix": REAL, "calcule_base": REAL, "callers": "ExchangeMap and the MC loop, real code"},
+     schedule_dimension="call histories on a map; the random stream of the MC loop",
+     probes=["collinear_frame", "coincident_middle_point"])
